@@ -460,8 +460,15 @@ class ModelInputArrayBijector:
       if denom < 1e-6:
         logging.warning('Unusually small range detected for %s', spec)
 
-      def scale_fn(x, low=low, raw_sum=raw_sum, denom=denom):
-        return 1.0 - (np.log(raw_sum - x) - low) / denom
+      raw_low, raw_high = spec.bounds
+
+      def scale_fn(
+          x, low=low, raw_sum=raw_sum, denom=denom, lo=raw_low, hi=raw_high
+      ):
+        y = 1.0 - (np.log(raw_sum - x) - low) / denom
+        # `raw_sum - x` is inexact next to the bounds; keep in-range inputs
+        # inside [0, 1].
+        return np.where((x >= lo) & (x <= hi), np.clip(y, 0.0, 1.0), y)
 
       def unscale_fn(x, high=high, raw_sum=raw_sum):
         return raw_sum - np.exp(high - denom * x)
